@@ -270,9 +270,12 @@ pub fn records(rng: &mut Rng, cfg: &Cfg) -> Vec<Rec> {
         let mut resnum: isize = if cfg.wraps && r.chance(1, 4) { 9_995 + r.below(4) as isize } else { r.range(-3, 40) as isize };
         for (ci, chain) in chain_seq.iter().enumerate() {
             let n_res = 1 + r.below(3);
+            let order_mode = r.below(4);
             for _ in 0..n_res {
                 let ins = if r.chance(1, 6) { Some(*r.pick(&['A', 'b', 'Z'])) } else { None };
-                let resname = *r.pick(&resnames);
+                // the name follows from the residue's key: a key that comes back (numbers are not ascending any more) names the same residue
+                let _ = r.pick(&resnames);
+                let resname = resnames[((resnum + 50) as usize * 7 + ins.map_or(0, |c| c as usize)) % resnames.len()];
                 let alt_mode = r.below(8); // 0,1,2: none; 3,5,6,7: partial (some atoms blank; one, two or three labels; blank first or in the middle); 4: full
                 let n_atoms = 1 + r.below(4);
                 let alts: Vec<Option<char>> = match alt_mode {
@@ -313,7 +316,19 @@ pub fn records(rng: &mut Rng, cfg: &Cfg) -> Vec<Rec> {
                         serial = if serial == 99_999 { 0 } else { serial + 1 };
                     }
                 }
-                resnum = if resnum == 9_999 { 0 } else { resnum + 1 };
+                // mostly ascending numbers; some chains count down or jump about (order of first appearance, not of the numbers),
+                // and a residue may keep the number of the one before (another insertion code, or the parent after its insertion)
+                resnum = if resnum >= 9_000 || order_mode < 2 {
+                    if resnum == 9_999 { 0 } else { resnum + 1 }
+                } else if order_mode == 2 {
+                    resnum - 1 - r.below(2) as isize
+                } else {
+                    match r.below(3) {
+                        0 => resnum,
+                        1 => r.range(-3, 40) as isize,
+                        _ => resnum + 1,
+                    }
+                };
             }
             if use_blank || r.chance(1, 3) {
                 out.push(Rec::Ter);
